@@ -3,13 +3,16 @@
 Real side: every *phase* of a case is one boot of the real hub in a FRESH subprocess (`python -m harness.sub
 harness.boot_c07`, the repo's own startup.init_* sequence) on the same persistence store (JSON file driver; Redis
 driver through the real redis client over loopback to a fakeredis.TcpFakeServer that the worker keeps alive). A phase
-applies a random history of API calls (POST/PATCH/DELETE /ports, PATCH value, PATCH /device, PUT/PATCH/DELETE /devices,
+applies a random history of API calls (POST/PATCH/DELETE /ports, PATCH value, PATCH /device, PUT /device with GET /device
+fed back (possibly modified), PUT/PATCH/DELETE /devices,
 offline device-level edits of a slave, POST /devices against simulated remote devices that are reachable only in the
 boot that adds them), lets the hub's own save loop run once, dumps GET /ports, /device, /devices and
 exits; the next phase boots on the same store and dumps again, together with the driver write_value log of the load.
 Model side: QtVerif.Model.Config via Driver/C07.lean, fed with the same operations and the observed value changes.
 Oracle: documents before the restart == documents after it (volatile attributes excepted; the ports of slave devices
-included), one driver write per persisted writable port with its last value through the write transform, none for the
+included, with the attributes the hub keeps for them: tag, expires, expression, history settings), the password hashes
+and the credentials the hub accepts (JWTs made for candidate passwords, through the repo's parse_auth_header) are the
+same, one driver write per persisted writable port with its last value through the write transform, none for the
 others; removed ports and slaves absent.
 
 Known finding C07-non-inverse-transforms-drift (status "known", known.d/C07.json): a persisted, enabled, writable port
@@ -182,18 +185,22 @@ class C07(Prop):
             'inverse transform pairs and - 12 % of the transform edits - a read transform without write transform or the '
             'reverse (known finding: exactly the predicted drift of that port\'s value is tolerated), unparsable '
             'expressions inside otherwise valid PATCHes, persisted flags and value '
-            'writes, device name/display name/passwords, disabled slave devices with cached attributes and offline '
-            '(provisioning) edits of device attributes and webhooks parameters; 15 % of the cases add three simulated '
+            'writes, device name/display name/passwords (PATCH /device) and PUT /device (GET /device fed back, with '
+            'name/display name set or left out, password fields and unknown attributes that must be ignored, 6 % failing '
+            'the schema), 25 % of the cases with the block "PATCH /device, PUT /device in the same run, 0-2 more PATCH '
+            '/device" before a restart; disabled slave devices with cached attributes and offline '
+            '(provisioning) edits of device attributes and webhooks parameters; 25 % of the cases add three simulated '
             'remote slave devices with two ports each (POST /devices over an in-process AsyncHTTPClient; reachable only in '
             'the boot that adds them, no polling/listening: afterwards the hub lives on what it persisted), the name of '
-            'one a proper prefix of another\'s, tag some of their ports and DELETE one device, mostly after a save-loop '
-            'period; before a restart, optionally (a) ONE storage '
+            'one a proper prefix of another\'s, PATCH the hub-side attributes of their ports (tag, expires, an expression on '
+            'the writable AND on the read-only port - the latter is refused -, history settings), edit some of these ports '
+            'once more in the next run, and DELETE one device, mostly after a save-loop period; before a restart, optionally (a) ONE storage '
             'write of the save loop fails (OSError injected by a subclass of the real persist driver) and the hub gets a few '
             'save-loop periods, (b) the same attribute is edited twice in a row with no other write afterwards; a case is non-trivial when a restart happened with >= 1 persisted writable port '
             'holding a value and >= 1 non-default attribute; distinct = distinct canonical final documents')
     CORRESPONDENCE = ('Config.step/boot (setAttr, prepareForSave, loadFromData, firstRead, vports add/remove/init, device '
-                      'save/load, slave record save/load) <-> core/ports.py load_from_data/prepare_for_save/save_loop, core/vports.py, '
-                      'core/api/funcs/ports.py, core/device, slaves/devices.py through the API functions and a real process '
+                      'save/load/reset (putDev = reset + load + set_attrs + save), slave record save/load) <-> core/ports.py load_from_data/prepare_for_save/save_loop, core/vports.py, '
+                      'core/api/funcs/ports.py, core/api/funcs/device.py (patch_device, put_device), core/device, slaves/devices.py through the API functions and a real process '
                       'restart')
     TRUSTED = ['a restart is a fresh interpreter running the repo\'s startup.init_* sequence on the same store; '
                'fakeredis.TcpFakeServer stands in for a Redis server; virtual time inside the child process',
@@ -213,6 +220,9 @@ class C07(Prop):
                    'slave devices of the model are disabled (record level, no network); enabled, permanently offline slave '
                    'devices and their ports (slave_ports records) are covered by the before/after oracle on the real hub '
                    'only - they are not in the Lean model; live synchronisation with reachable slaves is C12/C13',
+                   'the document of a PUT /device is what GET /device answers, modified by the case; the model gets the name and '
+                   'display name of that document from its OWN current state (not from the hub\'s answer); a document that '
+                   'fails the schema is expected to be refused with a 400 before anything is touched (no model step)',
                    'a transient storage error is a single failing replace/insert of the save loop; the property\'s "followed '
                    'by a save" is met by the save loop retrying the still-pending port',
                    'peripheral-provided ports are not covered']
@@ -348,7 +358,13 @@ class C07(Prop):
              ['devput', {'set': {'name': 'bad name!'}, 'refused': True}]],
             []])
         c15 = dict(c14, name='PUT /device after a device save, further edits, restart (redis)', driver='redis')
-        return [c1, c2, c3, c4, c5, c6, c7, c8, c9, c10, c11, c12, c13, c14, c15]
+        # a driver-defined attribute whose default is not "empty" (gain = 1) set to 0, a flag set to false: the stored
+        # record must carry them (an attribute left out of the record falls back to the driver's default)
+        c16 = dict(base, name='attributes set to 0 / false / empty on a port whose defaults are not empty', phases=[
+            [['patch', 'lp1', {'gain': 0, 'note': 'n', 'enabled': True, 'persisted': True}],
+             ['patch', 'lp1', {'note': '', 'persisted': False}]],
+            []])
+        return [c1, c2, c3, c4, c5, c6, c7, c8, c9, c10, c11, c12, c13, c14, c15, c16]
 
     @staticmethod
     def _slave_doc(name, k, attrs):
